@@ -121,7 +121,7 @@ func DumpDB(db *sql.DB) (string, error) {
 
 // DumpNode dumps a node's live database. Call at a quiescent point.
 func (s *Sim) DumpNode(n *node.Node) (string, error) {
-	return DumpFiles(n.Store.Path(), s.Dir)
+	return DumpFiles(filepath.Join(n.Dir, "db.sqlite"), s.Dir)
 }
 
 // FirstDiff returns a short description of where two dumps differ.
